@@ -284,3 +284,20 @@ Proof.
   intros l f ir H Hin. unfold fields_wf in H. rewrite forallb_forall in H.
   apply field_wfb_ok. apply (H (f, ir) Hin).
 Qed.
+
+
+(* every generated type name used by an accessor / method signature denotes the schema's type *)
+Theorem typerefs_match_sound : forall l t ids x, typerefs_match l = true -> In (t, ids) l -> In x ids -> x = t.
+Proof.
+  intros l t ids x H Hin Hx. unfold typerefs_match in H. rewrite forallb_forall in H.
+  specialize (H (t, ids) Hin). cbn [fst snd] in H. destruct ids as [|a r]; [contradiction|].
+  rewrite forallb_forall in H. specialize (H x Hx). apply Z.eqb_eq in H. congruence.
+Qed.
+
+(* every emitted pointer default (getter argument, pipelined accessor) is the field's slot and bytes *)
+Theorem defrefs_match_sound : forall l k want got, defrefs_match l = true -> In (k, (want, got)) l -> got = want.
+Proof.
+  intros l k [s1 d1] [s2 d2] H Hin. unfold defrefs_match in H. rewrite forallb_forall in H.
+  specialize (H _ Hin). cbn [fst snd] in H. apply andb_prop in H. destruct H as [A B].
+  apply Z.eqb_eq in A. apply zlist_eqb_eq in B. congruence.
+Qed.
